@@ -6,9 +6,9 @@ package grid
 // declared size, blob present/absent, identity and zstd uploads.
 
 import (
-	"github.com/buchgr/bazel-remote/v2/cache"
 	"context"
 	"fmt"
+	"github.com/buchgr/bazel-remote/v2/cache"
 	"strings"
 	"testing"
 
@@ -43,6 +43,15 @@ func (f *fx) bsWrite(msgs []c16Msg, closeSend bool) c16Res {
 		if err := st.Send(&bytestream.WriteRequest{ResourceName: m.name, WriteOffset: m.offset, FinishWrite: m.finish, Data: m.data}); err != nil {
 			break
 		}
+	}
+	if !closeSend {
+		// the client does NOT half-close: it sent what the protocol requires (finish_write, or
+		// enough for an early return) and now waits for the answer
+		var resp bytestream.WriteResponse
+		if err := st.RecvMsg(&resp); err != nil {
+			return c16Res{code: status.Code(err)}
+		}
+		return c16Res{ok: true, code: codes.OK, committed: resp.CommittedSize}
 	}
 	resp, err := st.CloseAndRecv()
 	if err != nil {
@@ -323,6 +332,7 @@ func TestC16(t *testing.T) {
 		}
 	}
 	if shard == 0 {
+		c16NoHalfClose(rep, f, mode)
 		c16Backend(rep, mode)
 	}
 	for _, p := range f.takePanics() {
@@ -424,5 +434,95 @@ func c16Backend(rep *vlib.Report, mode string) {
 	}
 	for _, p := range f.takePanics() {
 		rep.Violate("C14 handler panic during C16 (backend)", p, nil)
+	}
+}
+
+// c16NoHalfClose: the client does not half-close the stream. (a) finish_write on the last
+// message ends the upload: the server must answer (all compositions into <=3 messages, identity
+// and zstd, blob absent / present); (b) the blob already exists: the server answers after the
+// first message, "without requiring the rest of the stream" (no finish_write, nothing more sent).
+func c16NoHalfClose(rep *vlib.Report, f *fx, mode string) {
+	hung := false
+	for _, z := range []bool{false, true} {
+		for _, present := range []bool{false, true} {
+			for parts := 1; parts <= 3 && !hung; parts++ {
+				for _, comp := range compositions(6, parts) {
+					for _, firstOnly := range []bool{false, true} {
+						if firstOnly && !present {
+							continue // an absent blob needs the whole stream
+						}
+						if hung {
+							break
+						}
+						rep.Eval()
+						c16Ctr++
+						content := vlib.Bytes(fmt.Sprintf("c16/nohalfclose/%s/%d", mode, c16Ctr), 6, false)
+						hash := vlib.Sha(content)
+						wire, kind := content, "blobs"
+						cc := comp
+						if z {
+							wire, kind = vlib.ZstdEncode(content), "compressed-blobs/zstd"
+							cc = make([]int, len(comp))
+							used := 0
+							for i := range comp {
+								if i == len(comp)-1 {
+									cc[i] = len(wire) - used
+								} else {
+									cc[i] = comp[i] * len(wire) / 6
+								}
+								used += cc[i]
+							}
+						}
+						if present {
+							if r := f.upload(upReq{path: "batch", hash: hash, size: 6, wire: content, abortAfter: -1}); !r.ok {
+								rep.BrokenHarness("pre-upload failed: %s", r.status)
+								return
+							}
+						}
+						name := fmt.Sprintf("uploads/%s/%s/%s/6", nextUUID(), kind, hash)
+						var msgs []c16Msg
+						pos := 0
+						for i, c := range cc {
+							m := c16Msg{data: wire[pos : pos+c], offset: int64(pos)}
+							if i == 0 {
+								m.name = name
+							}
+							pos += c
+							msgs = append(msgs, m)
+						}
+						if firstOnly {
+							msgs = msgs[:1]
+						} else {
+							msgs[len(msgs)-1].finish = true
+						}
+						res := f.bsWrite(msgs, false)
+						f.settle()
+						fm, _, _ := f.present(hash, 6)
+						id := fmt.Sprintf("mode=%s %s present=%v messages=%v first_message_only=%v, client does not half-close -> ok=%v code=%s committed=%d present_after=%v", mode, kind, present, cc, firstOnly, res.ok, res.code, res.committed, fm)
+						key := fmt.Sprintf("C16 no half-close %s present=%v first_only=%v", kind, present, firstOnly)
+						want := int64(len(wire))
+						if present {
+							want = 6
+							if z {
+								want = -1
+							}
+						}
+						switch {
+						case res.code == codes.DeadlineExceeded:
+							hung = true
+							rep.Violate(key+" no answer although the protocol needs nothing more from the client", id, nil)
+						case !res.ok:
+							rep.Violate(key+" upload failed", id, nil)
+						case res.committed != want && !(present && !firstOnly && res.committed == int64(len(wire))):
+							rep.Violate(key+" wrong committed_size", fmt.Sprintf("%s (expected %d)", id, want), nil)
+						case !fm:
+							rep.Violate(key+" acknowledged but not present", id, nil)
+						default:
+							rep.Nontrivial(fmt.Sprintf("nohalfclose %v %v %v %v", z, present, cc, firstOnly))
+						}
+					}
+				}
+			}
+		}
 	}
 }
